@@ -17,7 +17,7 @@ import pickle
 
 import numpy as np
 
-ROUTES = ["swapswap", "deepcopy", "pickle", "subclass", "proportion1", "sample-replacement", "sample-smooth", "sample-single_pass",
+ROUTES = ["swapswap", "deepcopy", "pickle", "subclass", "swap", "proportion1", "sample-replacement", "sample-smooth", "sample-single_pass",
           "sample-proportion", "sample-swap"]
 
 
@@ -25,7 +25,7 @@ def pick(rng, p=0.12, samples=True):
     """a route name or None (probability p); `samples=False` restricts to the routes that keep the multiset"""
     if rng.random() >= p:
         return None
-    pool = ROUTES if samples else ROUTES[:5]
+    pool = ROUTES if samples else ROUTES[:6]
     return rng.choice(pool)
 
 
@@ -57,6 +57,8 @@ def apply(s, route, seed):
                 return None
             o = ProjectScores({"pos": np.array(s.pos, copy=True), "neg": np.array(s.neg, copy=True), "ep": s.nb_easy_pos,
                                "en": s.nb_easy_neg, "sc": s.score_class, "ec": s.equal_class})
+        elif route == "swap":
+            o = s.swap()
         elif route == "proportion1":
             o = s.bootstrap_sample(BootstrapConfig(sampling_method="proportion", ratio=1.0))
         elif route == "sample-replacement":
@@ -75,11 +77,20 @@ def apply(s, route, seed):
         return None
     finally:
         np.random.set_state(state)
-    pos = [float(x) for x in np.asarray(o.pos).reshape(-1)]
-    neg = [float(x) for x in np.asarray(o.neg).reshape(-1)]
+    flip = {"pos": "neg", "neg": "pos"}
+    if route in ("swapswap", "deepcopy", "pickle", "subclass"):
+        # the derived object must BE the original: the model is given what the ORIGINAL holds, not what the derived object
+        # claims to hold (a swap() that forgets to exchange the easy counts yields a self-consistent but wrong object)
+        src = (s.pos, s.neg, s.nb_easy_pos, s.nb_easy_neg, s.score_class.value, s.equal_class.value)
+    elif route == "swap":
+        src = (s.neg, s.pos, s.nb_easy_neg, s.nb_easy_pos, flip[s.score_class.value], flip[s.equal_class.value])
+    else:
+        src = (o.pos, o.neg, o.nb_easy_pos, o.nb_easy_neg, o.score_class.value, o.equal_class.value)
+    pos = [float(x) for x in np.asarray(src[0]).reshape(-1)]
+    neg = [float(x) for x in np.asarray(src[1]).reshape(-1)]
     if not all(np.isfinite(pos + neg)):
         return None
-    return o, pos, neg, int(o.nb_easy_pos), int(o.nb_easy_neg), o.score_class.value, o.equal_class.value
+    return o, pos, neg, int(src[2]), int(src[3]), src[4], src[5]
 
 
 def shared_views(Scores, pa, na, **kw):
